@@ -15,6 +15,17 @@ class Wire:
         self.server = server
         self.recv_calls = 0
         self.segments = []      # what the reactive server released, one entry per sendall / TLS handshake
+        self.late = set()       # indices of released segments that reach the client only after one read has timed out
+        self.delayed = b""
+
+    def release(self, seg):
+        idx = len(self.segments)
+        self.segments.append(bytes(seg))
+        if idx in self.late:
+            self.delayed += seg
+        else:
+            self.stream += self.delayed + seg
+            self.delayed = b""
 
     def feed(self, b=b"", sched=None):
         self.stream += b
@@ -36,9 +47,7 @@ class FakeSocket:
         b = bytes(b)
         self.wire.writes.append((self.tls, b))
         if self.wire.server is not None:
-            seg = self.wire.server.receive(b)
-            self.wire.stream += seg
-            self.wire.segments.append(bytes(seg))
+            self.wire.release(self.wire.server.receive(b))
 
     def recv(self, n):
         w = self.wire
@@ -46,6 +55,9 @@ class FakeSocket:
         if not w.stream:
             if getattr(w, "eof", False):
                 return b""
+            if w.delayed:       # the data was merely slow: it is there for whoever reads next
+                w.stream += w.delayed
+                w.delayed = b""
             raise socket.timeout("timed out")
         cap = n
         if w.sched:
@@ -66,9 +78,7 @@ class FakeCtx:
         if not self.ok:
             raise ssl.SSLError("handshake failed")
         if self.wire.server is not None and hasattr(self.wire.server, "tls_started"):
-            seg = self.wire.server.tls_started()
-            self.wire.stream += seg
-            self.wire.segments.append(bytes(seg))
+            self.wire.release(self.wire.server.tls_started())
         return FakeSocket(self.wire, tls=True)
 
 
@@ -129,8 +139,9 @@ class Session:
             out += " errcode=%s errmsg=%s left=%s" % (hexor(ec or b""), hexor(em or b""), hexor(bytes(buf) + bytes(self.wire.stream)))
         return out
 
-    def connect(self, stream, sched, login, pw, authz="", starttls=False, mech=None, tcp=True, tlsok=True, server=None):
+    def connect(self, stream, sched, login, pw, authz="", starttls=False, mech=None, tcp=True, tlsok=True, server=None, late=()):
         self.wire = Wire(stream, sched, server)
+        self.wire.late = set(late)
         wire = self.wire
 
         def create_connection(addr, *a, **k):
